@@ -46,7 +46,7 @@ def stage_pool(D, ctx):
     return E
 
 
-def build_flow(ctx, gen, rng, D, ctx_kind, fixed=None):
+def build_flow(ctx, gen, rng, D, ctx_kind, fixed=None, regime='normal'):
     from nflows.flows.base import Flow
     from nflows.distributions.normal import StandardNormal, DiagonalNormal, ConditionalDiagonalNormal
     import nflows.transforms as T
@@ -56,7 +56,7 @@ def build_flow(ctx, gen, rng, D, ctx_kind, fixed=None):
     stages = []
     if fixed is not None:
         # deterministic coverage: a single-stage flow for every entry of the pool
-        stages.append((fixed, tcorr.build(fixed, gen, torch.float64, 'normal'), False))
+        stages.append((fixed, tcorr.build(fixed, gen, torch.float64, regime), False))
         nst = 0
     for _ in range(nst):
         e = rng.choice(pool)
@@ -322,11 +322,11 @@ def search(ctx):
     # transformed point plus log|det| of the Jacobian of the transform ACTUALLY computed (autograd), point by point
     for D in (2, 3):
         for ck, cf in (('none', None), ('rows', 2)):
-            for e in stage_pool(D, cf):
+            for e, regime in [(e_, r_) for e_ in stage_pool(D, cf) for r_ in (('normal',) if e_.spline else ('normal', 'extreme'))]:
                 if (e.ctx is None) != (cf is None):
                     continue
                 try:
-                    flow, stages, mods, base, bk, emb, rawc = build_flow(ctx, gen, rng, D, ck, e)
+                    flow, stages, mods, base, bk, emb, rawc = build_flow(ctx, gen, rng, D, ck, e, regime)
                     x = 1.2 * torch.randn(3, D, generator=gen, dtype=torch.float64)
                     c = torch.randn(3, rawc, generator=gen, dtype=torch.float64) if rawc else None
                     with torch.no_grad():
@@ -340,7 +340,7 @@ def search(ctx):
                         want = float(bl) + float(torch.slogdet(J)[1])
                         if not abs(want - float(lp[i])) <= 1e-6 * (1 + abs(want)):
                             ctx.fail('log_prob(x) = %.9g but base log-density at the transformed point + log|det Jacobian| = %.9g: exp(log_prob) is not the push-forward density'
-                                     % (float(lp[i]), want), {'program': [e.name], 'base': bk, 'context': ci.tolist() if ci is not None else None, 'D': D, 'x': x[i].tolist()},
+                                     % (float(lp[i]), want), {'program': [e.name], 'regime': regime, 'base': bk, 'context': ci.tolist() if ci is not None else None, 'D': D, 'x': x[i].tolist()},
                                      match={'symptom': 'logprob!=pushforward', 'classes': [e.name.split('/')[0]]})
                             break
                 except Exception as ex:
